@@ -19,6 +19,24 @@ CHECKS = {
             "exhaustive: the code has no data-dependent branches beyond those forced by these clouds (ties, degeneracy, parallelism, thresholds hit exactly).",
             "Soundness of reported connections (the statement does not demand completeness); float tolerance 1e-9 on distances; ties accept any choice.",
             "DESIGN.md C19"),
+    "C15": ("exploration",
+            "bounded exhaustive enumeration of sign/magnitude patterns x detector configurations on the real detector vs reference detector; analytic crossings with interpolation-theory error bounds on a sampling ladder",
+            "All patterns of section-function values from a 7-atom alphabet (strict signs, exact zeros, sub-tolerance values) of length 5 (thorough: 6, and 5 atoms "
+            "length 7) x direction x linear/cubic x segment_refine 0..2 x uniform/non-uniform grids x axis/oblique normals are run through the real "
+            "detect_on_trajectory and compared with a reference detector written from the statement (one hit per admissible strict sign change, none elsewhere, "
+            "ordered, on the curve, on the plane); first-harmonic analytic curves give closed-form crossings for every normal/offset/direction and the hit "
+            "time/state errors must obey C h^2 (linear) / C h^3 (cubic, uniform) bounds on every rung of a 3-4 rung ladder; the batch run() interface is checked against per-trajectory calls.",
+            "Number of hits at samples lying on the surface is don't-care; default dedup tolerances; sub-step double crossings are outside the statement.",
+            "DESIGN.md C15"),
+    "C06": ("model_checking",
+            "exhaustive enumeration: all multi-indices deg<=30; all basis monomial pairs vs exact reference; all thread-assignment schedules of the prange kernels under a virtual scheduler with traced arrays (conflict-freedom invariant) plus the real scheduler's knob lattice",
+            "Layout bijection is decided completely (1,947,792 multi-indices). Linear/bilinear kernels are decided on all basis monomials (deg<=3 pairs, deg<=5 x 6 variables) plus "
+            "colliding/dense/complex menus for the list-level operations and substitutions against an exact dict-of-monomials model. Schedule independence: the kernels' own Python "
+            "source runs under a virtual prange scheduler for every assignment of non-trivial iterations to T<=3 virtual threads x 2 orders with every kernel-allocated array traced; "
+            "the invariant (no cross-thread conflicting access to a cell that is ever read, thread id < thread count, result == reference) holds in every explored schedule, which implies "
+            "independence of intra-iteration interleavings; the compiled kernels are additionally run for threads 1..16 x chunksize{0,1,2,3,5,8} x 3 repeats and must be bitwise equal to the exact result.",
+            "py_func is the same source numba compiles; native-code interleavings are covered by the conflict-freedom argument, not enumerated; integer-valued inputs make float sums exact.",
+            "DESIGN.md C06"),
 }
 
 NOT_YET = {
